@@ -58,6 +58,9 @@ def run(ctx):
   }, required=False))
   # location-independent rules first: an anchored rule that gives up must not mask them
   from sa import pitfalls
+  _cs = ctx.P.module('chord_symbols_lib')
+  pitfalls.apply(ctx, 'PITFALL', [fi_ for q_, fi_ in sorted(_cs.all_functions.items()) if '.' not in q_], ['falsy-zero'], {
+      'falsy-zero': 'pitch class 0 (C, B#, Dbb) is a root / bass like any other: a chord whose bass is pitch class 0 before or after the transposition reports its root as bass, so the bass does not move by the amount modulo 12'})
   ps = ctx.func('chord_symbols_lib:_pitch_class_to_string')
   if len(ps.node.args.args) == 2:
     for s_ in pitfalls.sign_only(ps.node, ps.node.args.args[1].arg):
